@@ -23,7 +23,7 @@ const (
 	modulePath = "github.com/google/osv-scalibr/"
 	// networkExtractor is the one built-in extractor that cannot run offline (DESIGN C02 G).
 	networkExtractor = "java/pomxmlnet"
-	maxFixture       = 64 << 10
+	maxFixture       = 256 << 10
 )
 
 // repoRoot is where the fixtures are read from: the repository the harness was built against.
